@@ -44,7 +44,8 @@ def gen_session(rng, tier, i):
         # that of the tree actually handed to extract (judged on its raw dump)
         trans = [list(x) for x in rng.choice(PIPELINES)]
     return {"tb": tb, "source": source, "shuffle": rng.randrange(1 << 30),
-            "layout": rng.randrange(1 << 30), "trans": trans}
+            "layout": rng.randrange(1 << 30), "trans": trans,
+            "extract_before": bool(trans) and rng.random() < 0.5}
 
 
 PIPELINES = [
@@ -78,6 +79,10 @@ def session_ops(s, i, files, order=None, dumps=True):
     pre = [["trans", "t", t[0], t[1]] for t in s.get("trans", [])]
     if pre:
         pre.append(["dump", "t"])
+        if s.get("extract_before"):
+            # the same tree object is extracted into a throw-away accumulator, changed in
+            # place and extracted again
+            pre = [["gnew", "scratch"], ["extract", "t", "scratch"]] + pre
     if s["source"] == "api":
         for j, sent in enumerate(tb):
             ops.append(["build", "t", sent, s["shuffle"] + j])
